@@ -450,8 +450,6 @@ class ExcelInPython:
             return text[0]
         if num_chars < 0:
             return '#ERROR!'
-        if not text:
-            return self.EmptyCell()
         if len(text) < num_chars:
             return text
         return text[0:num_chars]
@@ -462,7 +460,7 @@ class ExcelInPython:
         if num_chars < 0:
             return '#VALUE!'
         if start_num > len(text):
-            return self.EmptyCell()
+            return ''
         
         return text[start_num - 1:start_num + num_chars - 1]
     
@@ -515,8 +513,6 @@ class ExcelInPython:
             return text[len(text) - 1]
         if num_chars < 0:
             return '#ERROR!'
-        if not text:
-            return self.EmptyCell()
         if len(text) < num_chars:
             return text
         return text[len(text) - num_chars:]
